@@ -170,7 +170,7 @@ def run(tier):
             if None in vals:
                 continue
             rep.ob("trichotomy", "%s %s" % (side, label), sum(1 for v in vals if v is True) == 1, "lt/eq/gt = %r" % (vals,))
-    common.lookup_sites(prog, rep, floor=6)
+    common.lookup_sites(prog, rep)
     rep.assumptions += [
         "core's comparison operators on u32 and RangeInclusive::{start,end,contains} behave as documented (model table)",
         "entries satisfy start <= end (the property's own precondition; table order is L2, checked with the tables in C15)",
